@@ -22,6 +22,14 @@ use crate::{
     sets::MEP,
 };
 
+/// `ctx.oracle_fail`, echoing to stderr when `C05_DEBUG` is set.
+pub fn ofail(ctx: &mut Ctx, key: &str, what: &str, detail: serde_json::Value) {
+    if std::env::var("C05_DEBUG").is_ok() {
+        eprintln!("ORACLE {key} || {what} || {detail}");
+    }
+    ctx.oracle_fail(key, what, detail);
+}
+
 pub struct MockRun<F: ff::Field> {
     /// `Ok(true)` accepted, `Ok(false)` rejected, `Err` synthesis error / panic
     pub verdict: Result<bool, String>,
@@ -427,14 +435,14 @@ where
     let chunks_default = case.ops.iter().any(|o| o.name == "chunks" && o.args[2] == "-");
     if r.sat {
         if verdict != "sat" {
-            ctx.oracle_fail(
+            ofail(ctx, 
                 &format!("honest-rejected:{}:{}", s.name, case.kind),
                 "the circuit of an operation with admissible operands is not satisfied by the honest witness",
                 json!({"set": s.name, "program": prog, "verdict": format!("{:?}", run.verdict), "kind": case.kind}),
             );
         } else if !chunks_default {
             if let Some(d) = check_values(&r, &run.outcome) {
-                ctx.oracle_fail(
+                ofail(ctx, 
                     &format!("wrong-value:{key}"),
                     "an operation returns a value different from the reference arithmetic",
                     json!({"set": s.name, "program": prog, "detail": d}),
@@ -442,7 +450,7 @@ where
             }
         }
     } else if verdict == "sat" {
-        ctx.oracle_fail(
+        ofail(ctx, 
             &format!("unsat-accepted:{key}"),
             "a program whose assertions are false (or that divides by zero / does not fit) is satisfied",
             json!({"set": s.name, "program": prog}),
@@ -474,7 +482,7 @@ where
         let run = mock::<F, K>(&case.ops, &p, 11);
         ctx.count("wrong-public:limb+1");
         if run.verdict == Ok(true) {
-            ctx.oracle_fail(
+            ofail(ctx, 
                 &format!("wrong-public-accepted:{}:{}", s.name, prog),
                 "a public input different from the exposed element is accepted",
                 json!({"set": s.name, "program": prog, "limb": j}),
@@ -498,7 +506,7 @@ where
         let run = mock::<F, K>(&case.ops, &p, 11);
         ctx.count("wrong-public:noncanonical");
         if run.verdict == Ok(true) {
-            ctx.oracle_fail(
+            ofail(ctx, 
                 &format!("noncanonical-public-accepted:{}:{}", s.name, prog),
                 "the non-canonical limb encoding (value + m) of an exposed element is accepted as public input",
                 json!({"set": s.name, "program": prog}),
@@ -582,7 +590,7 @@ where
             prover.verif_advice_mut()[c.col][c.row] = old;
             ctx.count(&format!("tamper:{}:{}", if rname.starts_with("Foreign") { rname.as_str() } else { "other" }, if ok { "ACCEPTED" } else { "rejected" }));
             if ok {
-                ctx.oracle_fail(
+                ofail(ctx, 
                     &format!("tamper-accepted:{}:{}:{}", s.name, rname, off),
                     "a changed advice cell (quotient / carry / limb) is accepted by the real constraint system",
                     json!({"set": s.name, "program": prog, "region": rname, "col": c.col, "row_offset": off, "fault": fname}),
